@@ -86,11 +86,9 @@ type wrappedSlidingWindowDetector struct {
 	init       bool
 }
 
-func (d *wrappedSlidingWindowDetector) Check(seq uint64) (func() bool, bool) {
-	if seq > d.maxSeq {
-		// Exceeded upper limit.
-		return nop, false
-	}
+// distance tells how far seq is behind the head of the window as it is now
+// (negative: ahead of it), wrapped into half the sequence space on either side.
+func (d *wrappedSlidingWindowDetector) distance(seq uint64) int64 {
 	latestSeq := d.latestSeq
 	if !d.init {
 		// Nothing has been accepted yet: position the window just behind seq,
@@ -110,6 +108,16 @@ func (d *wrappedSlidingWindowDetector) Check(seq uint64) (func() bool, bool) {
 		diff += int64(d.maxSeq + 1) //nolint:gosec // GG115 TODO check
 	}
 
+	return diff
+}
+
+func (d *wrappedSlidingWindowDetector) Check(seq uint64) (func() bool, bool) {
+	if seq > d.maxSeq {
+		// Exceeded upper limit.
+		return nop, false
+	}
+
+	diff := d.distance(seq)
 	if diff >= int64(d.windowSize) { //nolint:gosec // GG115 TODO check
 		// Too old.
 		return nop, false
@@ -122,6 +130,9 @@ func (d *wrappedSlidingWindowDetector) Check(seq uint64) (func() bool, bool) {
 	}
 
 	return func() bool {
+		// The window may have moved since Check returned (another accept may have
+		// run in between): position seq against the head as it is now.
+		diff := d.distance(seq)
 		d.init = true
 		latest := false
 		if diff < 0 {
